@@ -13,7 +13,7 @@ from mc.core.util import call
 ID = "C11"
 LEVEL = "model_checking"
 REQUIRED_OUTCOMES = ["dump:refused-duplicate-uid", "add:accepted", "add:same-object-again", "refused:duplicate-id", "refused:foreign-arch",
-                     "refused:foreign-arch-first-child", "refused:misaligned-uid", "refused:ancestor",
+                     "refused:foreign-arch-first-child", "refused:misaligned-uid", "refused:ancestor", "refused:ancestor-realigned",
                      "refused:top-level-under-other", "reload:ok", "state:depth3", "state:dashed-top", "query:filtered"]
 
 # name -> (id, uid, type, arches)
@@ -25,8 +25,10 @@ CANDS = {
     "Ao2":  ("o", "A-o", "optional", ("x86_64",)),                 # a DIFFERENT object with the same id
     "Aa":   ("a", "A-a", "addon", ("i386", "x86_64")),
     "Aog":  ("g", "A-o-g", "layered-product", ("x86_64",)),        # grandchild
+    "Aab":  ("b", "A-a-b", "variant", ("i386", "x86_64")),         # grandchild with ALL arches of the root (only a cycle check can refuse the root below it)
     "Bo":   ("o", "B-o", "variant", ("x86_64",)),
     "Bz":   ("z", "B-z", "addon", ("i386",)),                      # arch outside the parent's
+    "By":   ("y", "B-y", "addon", ("i386", "x86_64")),             # one arch of the parent's, one outside (partial overlap)
     "Aoz":  ("z", "A-o-z", "addon", ("i386",)),                    # arch the parent A-o lacks (grandparent has it)
     "Xm":   ("m", "X-m", "addon", ("x86_64",)),                    # misaligned UID wherever it is added
     "Aq":   ("q", "Aq", "addon", ("x86_64",)),                     # UID that is right except for the missing dash (under A)
@@ -66,6 +68,10 @@ def m_step(state, op):
     nodes = m_nodes(state)
     if tpos and tpos not in nodes:
         return state, None, "no such target"
+    if op[0] == "add-as":
+        # an in-forest variant whose UID the caller has RE-ALIGNED to a target at or below its own position: the UID rule is
+        # satisfied, what must refuse it is the cycle (the variant would become its own ancestor)
+        return state, "ValueError", "ancestor-realigned"
     if len(tpos) == 1 and "-" in m_uid(nodes, tpos):
         return state, None, "dashed top-level UIDs occur only on childless variants (domain of the property)"
     cid, cuid, ctype, carches = CANDS[cname]
@@ -102,6 +108,11 @@ def m_ops(state):
     nodes = m_nodes(state)
     targets = [()] + sorted(nodes)
     ops = [["add", list(t), c] for t in targets for c in ORDER]
+    for pos, (name, orig) in sorted(nodes.items()):
+        if orig and not (len(pos) == 1 and "-" in CANDS[name][1]):
+            for t in sorted(nodes):
+                if t[:len(pos)] == pos and not (len(t) == 1 and "-" in m_uid(nodes, t)):
+                    ops.append(["add-as", list(t), name])
     if nodes:
         ops.append(["reload"])
     return ops
@@ -259,8 +270,20 @@ def run_history(hist, queries=False):
         else:
             target = node_at(ci, op[1])
             cand = objs[op[2]]
+            if op[0] == "add-as":
+                old_uid = cand.uid
+                cand.uid = "%s-%s" % (target.uid, cand.id)
             r = call(target.add, cand)
             got = "ok" if r[0] == "ok" else r[1]
+            if op[0] == "add-as" and r[0] == "ok":
+                # (the forest now contains a cycle: nothing can be observed any more without running in circles)
+                return state2, ["step %d %s: a variant was accepted below its own descendant %s (UID re-aligned to %s): the forest "
+                                "has a cycle" % (n, op, target.uid, cand.uid)], labels, nq
+            if op[0] == "add-as" and r[0] != "ok":
+                got = "ValueError"            # (the statement says "refused", it names no class: today a direct child answers RecursionError)
+                cand.uid = old_uid
+                if observe(ci) != before:
+                    got = "refused, but the forest changed"
         after = observe(ci)
         if got != want:
             return state2, ["step %d %s: library %s, model %s (%s)" % (n, op, got, want, reason)], labels, nq
@@ -269,7 +292,7 @@ def run_history(hist, queries=False):
         if want == "ValueError" and op[0] not in ("reload",):
             # the very same add again, right away: the refusal must not depend on the call having been seen before
             r = call(target.add, cand)
-            if r[0] == "ok" or r[1] != want or observe(ci) != before:
+            if op[0] != "add-as" and (r[0] == "ok" or r[1] != want or observe(ci) != before):
                 return state2, ["step %d %s: refused (%s), but the same add repeated at once %s" % (
                     n, op, reason, "is accepted" if r[0] == "ok" else "raises %s" % r[1] if r[1] != want else
                     "changes the forest")], labels, nq
